@@ -75,9 +75,25 @@ def get_scheme(scheme: str) -> scheme_func:
             stacklevel=3,
         )
 
-    # Replace the name of the function
-    func.__code__ = func.__code__.replace(co_name=scheme)
-    return func
+    # Return a copy of the function that carries the requested name. Renaming
+    # the shared module-level function in place made every earlier result of
+    # get_scheme (and the plain explicit_euler etc.) change name as well.
+    import functools
+    import types
+
+    renamed = types.FunctionType(
+        func.__code__.replace(co_name=scheme),
+        func.__globals__,
+        name=scheme,
+        argdefs=func.__defaults__,
+        closure=func.__closure__,
+    )
+    renamed = functools.update_wrapper(renamed, func)
+    renamed.__name__ = scheme
+    renamed.__qualname__ = scheme
+    renamed.__kwdefaults__ = func.__kwdefaults__
+    del renamed.__wrapped__
+    return renamed
 
 
 def list_schemes() -> list[str]:
